@@ -539,6 +539,10 @@ def _bound_search(facts, f, cfg, field):
     c = calls[0]
     algo = short(c["callee"]).split("::")[-1].split("<")[0]
     lam = [x for x in facts.fns if x.config == cfg and x.rec.get("parent") == f.name]
+    # the comparator handed over by name: a (static) member or free function referenced in the call's arguments
+    named = set(x["name"] for a_ in (c.get("args") or [])[3:] for x in walk(a_)
+                if x["k"] == "DeclRefExpr" and x.get("dk") in ("CXXMethod", "Function") and x.get("name"))
+    lam = lam + [x for x in facts.fns if x.config == cfg and x.name in named]
     ops = []
     for l in lam:
         ps = [p_["did"] for p_ in l.rec.get("params", [])]
